@@ -28,6 +28,23 @@ AllowRows == {[allow |-> allow, sender |-> s, verdict |-> AllowListVerdict(allow
 
 ASSUME PrintT(<<"TABLE", "allowlist", ToJson(AllowRows)>>)
 
+(* Layers compose: with two authorization layers stacked (outer around inner around the     *)
+(* service) each layer gates on its own authorizer alone.  The service is invoked iff both   *)
+(* accept; the response is the first refusing layer's.  Whatever else the request carries    *)
+(* (the connection's origin and the direction, which every inbound request has attached)     *)
+(* plays no part.                                                                            *)
+StackVerdict(outer, inner, sender) ==
+  LET o == AllowListVerdict(outer, sender) IN
+  IF o # "pass" THEN o ELSE AllowListVerdict(inner, sender)
+Extras == {"none", "origin-in", "origin-out", "direction-in", "direction-out", "origin-out+direction-out"}
+StackRows == {[outer |-> o, inner |-> i, sender |-> s, extra |-> x, verdict |-> StackVerdict(o, i, s)] :
+                o \in {{1}, {1, 2}, {1, 2, 3}}, i \in {{}, {2}, {1, 2}}, s \in {1, 2, 3, Absent}, x \in Extras}
+ExtraRows == {[allow |-> a, sender |-> s, extra |-> x, verdict |-> AllowListVerdict(a, s)] :
+                a \in {{}, {1}, {1, 2}}, s \in {1, 2, Absent, Stranger}, x \in Extras}
+ASSUME \A r \in StackRows : (r.verdict = "pass") <=> (r.sender \in r.outer /\ r.sender \in r.inner)
+ASSUME PrintT(<<"TABLE", "auth_stack", ToJson(StackRows)>>)
+ASSUME PrintT(<<"TABLE", "auth_extra", ToJson(ExtraRows)>>)
+
 CONSTANTS
   Reqs,       \* request ids
   Depth
